@@ -30,8 +30,8 @@ CHECKS = {
             "Held on the cases explored: every (value, unit, relative/absolute, periodic/one-shot/dispatch) timer request incl. unit boundaries must program exactly the equivalent itimerspec/clock; every malformed registration (flag/filter/ident/NULL combinations) must be refused without reaching the kernel and well-formed ones installed; hundreds of seeded histories over pipes, socketpairs (incl. half-close), timers and child processes, where a callback contradicting the shadow state (disabled, deleted, one-shot already fired, dispatch not re-enabled, wrong EOF flag) is a violation when it happens and expected firings are bounded-progress checked.",
             TP_NOTE + "; cross-thread enable/disable is not gated; absolute periodic interval not asserted", "DESIGN.md 4 C06"),
     "C16": ("exploration", "runtime monitoring: real I/O tasks over socketpairs/loopback with a feeder/drainer peer; callback-boundary monitor (window cursors, canaries in an exact-size heap buffer, stop/pause shadow flags) plus offline byte-stream comparison; ASan+UBSan and TSan builds",
-            "Held on the scenarios explored: read/recv tasks must hand over exactly the fed byte stream through the buffer windows (every window position/size incl. 1-byte, persistent/dispatch/one-shot, callback-after-every-read, direct first I/O), with cursors advanced by exactly the transferred amount and nothing written outside the window; end of stream once; timeouts once for a 10x gap and never for gaps <= T/20; nothing after stop/destroy on the owning thread, nothing while a dispatch task is paused; write/send tasks must deliver exactly the window to a slow peer through a tiny send buffer and complete once; packet receiver and accept tasks are counted.",
-            TP_NOTE + "; regular-file pread/pwrite and socket resets are not driven (see evidence assumptions)", "DESIGN.md 4 C16"),
+            "Held on the scenarios explored: read/recv tasks must hand over exactly the fed byte stream through the buffer windows (every window position/size incl. 1-byte, persistent/dispatch/one-shot, callback-after-every-read, direct first I/O), with cursors advanced by exactly the transferred amount and nothing written outside the window; end of stream once; a TCP reset by the peer reported once as an error; timeouts once for a 10x gap and never for gaps <= T/20; nothing after stop/destroy on the owning thread, nothing while a dispatch task is paused; write/send tasks must deliver exactly the window to a slow peer through a tiny send buffer and complete once; packet receiver and accept tasks are counted.",
+            TP_NOTE + "; regular-file pread/pwrite is not driven (see evidence assumptions)", "DESIGN.md 4 C16"),
     "C12": ("exploration", "runtime monitoring: every utility codec/container in the anchors driven under gcc and clang ASan+UBSan on exact-size heap inputs and outputs whose capacity sweeps 0..required+1 (also between canary frames), reported required sizes passed back, per-case CPU-time alarm",
             "Held on the cases explored: 118 functions (Base64, hex, num/str, UTF-8, ASN.1, bencode, XML extraction, INI, argument splitting, line iteration, mem_* helpers, CRC) with 18 structure-aware generator families plus mutations (truncation at every byte, delimiter as last byte, lengths beyond the buffer, closing tag first, 2^64 length wrap); a sanitizer bounds report, a canary change, a reported size that is not sufficient, or a CPU-time alarm is a violation; the run is inconclusive if any anchored function was never executed or a monitor fails to fire on a deliberate driver fault.",
             "trusted: ASan red zones + canaries (non-adjacent and intra-object overflows can escape); functions are called within documented preconditions; returned spans that leave the input are observations (C13 clause)", "DESIGN.md 4 C12"),
